@@ -223,6 +223,53 @@ def check_batch(acc: Acc, ctx: Ctx, pair, r: int) -> None:
             return
 
 
+def check_aliasing(acc: Acc, ctx: Ctx, r: int) -> None:
+    """The defuzzified point of a fuzzy set must not depend on what the caller later does with the objects it passed in
+    (the list or generator of activations, the array of degrees, the array of sample points)."""
+    a, b = ctx.a, ctx.b
+    case = {"range": [a, b], "set": "aliasing", "implication": ctx.impl_name, "aggregation": ctx.aggr_name, "resolution": r, "aliasing": True}
+
+    def points(agg):
+        return [float(np.asarray(ctx.defuzzifier(n, r).defuzzify(agg, a, b), dtype=float)) for n in DEFUZZ]
+
+    def same_points(p, q):
+        return all(close(x, y, 1e-12, 1e-12) for x, y in zip(p, q))
+
+    acts = [fl.Activated(ctx.terms[0], 0.5, ctx.impl), fl.Activated(ctx.terms[4], 1.0, ctx.impl)]
+    # (1) the caller's list grows afterwards
+    mine = [acts[0]]
+    agg = fl.Aggregated("o", a, b, ctx.aggr, mine)
+    first = points(agg)
+    mine.append(acts[1])
+    acc.case(("alias", a, ctx.impl_name, ctx.aggr_name, r, 1), nontrivial=True)
+    if not same_points(points(agg), first):
+        acc.violate("caller-list-aliased", {}, case, first, points(agg), "appending to the caller's list changed an existing Aggregated set")
+    # (2) the activations arrive as a generator
+    agg = fl.Aggregated("o", a, b, ctx.aggr, (t for t in acts))
+    first = points(agg)
+    acc.case(("alias", a, ctx.impl_name, ctx.aggr_name, r, 2), nontrivial=True)
+    if not same_points(points(agg), first) or len(agg.terms) != 2:
+        acc.violate("generator-consumed", {}, case, first, points(agg), "a set built from a generator defuzzifies differently the second time")
+    # (3) the caller overwrites its array of degrees
+    d = np.array([0.25, 0.5, 1.0])
+    agg = fl.Aggregated("o", a, b, ctx.aggr, [fl.Activated(ctx.terms[0], d, ctx.impl)])
+    first = [np.asarray(ctx.defuzzifier(n, r).defuzzify(agg, a, b), dtype=float).tolist() for n in DEFUZZ]
+    d[:] = 0.0
+    again = [np.asarray(ctx.defuzzifier(n, r).defuzzify(agg, a, b), dtype=float).tolist() for n in DEFUZZ]
+    acc.case(("alias", a, ctx.impl_name, ctx.aggr_name, r, 3), nontrivial=True)
+    if not all(np.allclose(x, y, rtol=0, atol=1e-12, equal_nan=True) for x, y in zip(first, again)):
+        acc.violate("caller-degrees-aliased", {}, case, first, again, "overwriting the caller's degree array changed the activated term")
+    # (4) the caller modifies the sample points it obtained from Op.midpoints
+    agg = fl.Aggregated("o", a, b, ctx.aggr, acts)
+    first = points(agg)
+    grid = fl.Op.midpoints(a, b, r)
+    grid -= 7.0
+    acc.case(("alias", a, ctx.impl_name, ctx.aggr_name, r, 4), nontrivial=True)
+    if not same_points(points(agg), first):
+        acc.violate("midpoints-shared", {}, case, first, points(agg), "modifying an array returned by Op.midpoints changed later defuzzifications")
+    acc.cls("aliasing_scenarios", 4)
+
+
 def run_shard(tier: str, seed: int, shard):
     rng_idx, impl, aggr = shard
     acc = Acc(ID)
@@ -248,6 +295,9 @@ def run_shard(tier: str, seed: int, shard):
         for r in (5, 16):
             acc.guard({"range": [ctx.a, ctx.b], "set": list(pair), "resolution": r, "batch": True, "implication": impl,
                        "aggregation": aggr}, check_batch, acc, ctx, pair, r)
+    for r in (4, 16):
+        acc.guard({"range": [ctx.a, ctx.b], "set": "aliasing", "resolution": r, "aliasing": True, "implication": impl, "aggregation": aggr},
+                  check_aliasing, acc, ctx, r)
     if shard == (1, "Minimum", "Maximum"):
         aset = ((0, 0.5), (4, 1.0))
         acc.sample({"range": [ctx.a, ctx.b], "set": [list(ctx.alpha[t]) + [d] for t, d in aset], "implication": impl,
@@ -294,6 +344,9 @@ def replay(case: dict):
     impl, aggr = case.get("implication", "Minimum"), case.get("aggregation", "Maximum")
     ctx = Ctx(rng_idx, impl, aggr, shift)
     xs = check_midpoints(acc, ctx.a, ctx.b, r)
+    if case.get("aliasing"):
+        acc.guard(case, check_aliasing, acc, ctx, r)
+        return acc.violations
     if "batch" in case:
         pair = [s[0] if isinstance(s, list) else s for s in case["set"]]
         acc.guard(case, check_batch, acc, ctx, tuple(pair), r)
